@@ -1,6 +1,7 @@
 # Sizing and claim for C17 (all output sinks agree; stream insertion / extraction)
 SPEC = {
-    "quick": {"rc_cases": 20000, "rc_procs": 12, "enum": True},
+    "variants": {"": [], "uchar": ["-funsigned-char"]},   # the second build variant uses an unsigned plain char (-funsigned-char: the ARM / AArch64 / PowerPC default); in the quick tier it runs a reduced number of generated cases and no enumerators
+    "quick": {"rc_cases": 20000, "rc_procs": 12, "enum": True, "variant_cfg": {"uchar": {"rc_cases": 10000, "rc_procs": 4, "enum": False}}},
     "thorough": {"rc_cases": 150000, "rc_procs": 14, "enum": True, "fuzz_secs": 180, "fuzz_workers": 8},
     "assumptions": [
         "FILE* output is captured with open_memstream, stream output with std::basic_ostringstream of the four character types",
